@@ -85,7 +85,18 @@ type FuncContract struct {
 	GhostEntry []GhostAssign          // ghost assignments executed on entry
 	CallAsserts map[string][]*Clause   // assertions at calls of the named callee (callee parameter names in scope)
 	SendAssert []*Clause // assertions at every send site in this function (bound var e)
+	Walkrels   []*Clause // two-state relations over ghost state satisfied by every call of this callback; must be reflexive and transitive
+	Walkpost   *WalkPost // the function is a tree-walk callback: per-entry postcondition used to summarise the walk
 	Line       int
+}
+
+// WalkPost: `walkpost [tags] PRED(keyParam, otherParam)` in the contract of a callback passed to an extern of kind calls:N.
+// Obligations on the callback: (1) result == nil ==> PRED(params); (2) stability: PRED(q, d) for any OTHER key q is
+// preserved by a call. The extern's contract may then use cbpost(q, d) for "PRED holds for entry q" after the walk.
+type WalkPost struct {
+	Pred string
+	Args []string
+	Tags string
 }
 
 // Cut: a cut point of the float pipeline: at the first access of the named struct field the fact is proved
@@ -97,6 +108,7 @@ type Cut struct {
 }
 
 type SiteAssert struct {
+	Kind    string // mapupdate | mapdelete
 	MapType string
 	C       *Clause
 }
@@ -119,7 +131,27 @@ type Lemma struct {
 	Src    string
 }
 
+// GuardedBy: fields of a struct that may only be written while a mutex (another field of the same struct) is held
+type GuardedBy struct {
+	Struct string // e.g. Device
+	Mutex  string // field name
+	Fields map[string]bool
+	Tags   []string
+}
+
+// LockInv: monitor invariant of a mutex field. At Lock (with other goroutines possibly running) the fields guarded by the
+// mutex take arbitrary values satisfying the invariant; at Unlock the invariant is an obligation.
+type LockInv struct {
+	Struct string
+	Mutex  string
+	Var    string
+	C      *Clause
+}
+
 type ContractFile struct {
+	LockInvs []*LockInv
+	Guarded []*GuardedBy
+	LockCtx map[string][]string // function name -> implicit precondition source
 	Pkg         string
 	Ghosts      []GhostDecl
 	OnSends     []*OnSend
@@ -135,7 +167,7 @@ type ContractFile struct {
 var directiveKw = map[string]bool{
 	"ghost": true, "on": true, "pred": true, "spec": true, "func": true, "requires": true, "ensures": true,
 	"modifies": true, "let": true, "safety": true, "loop": true, "assume": true, "lemma": true,
-	"extern": true, "axiom": true, "canary": true, "callassert": true, "siteassert": true, "cut": true, "trusted": true, "sendassert": true,
+	"extern": true, "axiom": true, "canary": true, "callassert": true, "siteassert": true, "cut": true, "guarded_by": true, "lockinv": true, "lockctx": true, "trusted": true, "sendassert": true, "walkpost": true, "walkrel": true,
 }
 
 var tagRe = regexp.MustCompile(`^\[([A-Za-z0-9_,! ]*)\]\s*`)
@@ -270,7 +302,11 @@ func parseContractFile(path, pkg string, cf *ContractFile) error {
 		return err
 	}
 	var cur *FuncContract
+	var lastExtern *ExternDecl
 	for _, d := range dirs {
+		if d0 := strings.Fields(d.text); len(d0) > 0 && d0[0] != "requires" && d0[0] != "ensures" && d0[0] != "modifies" {
+			lastExtern = nil
+		}
 		fields := strings.Fields(d.text)
 		kw := fields[0]
 		rest := strings.TrimSpace(d.text[len(kw):])
@@ -313,6 +349,27 @@ func parseContractFile(path, pkg string, cf *ContractFile) error {
 				os.Assigns = append(os.Assigns, GhostAssign{strings.TrimSpace(a[:k]), e})
 			}
 			cf.OnSends = append(cf.OnSends, os)
+		case "walkrel":
+			// walkrel [tags] EXPR  -- a relation between old(...) and current GHOST state that every call of the callback satisfies
+			if cur == nil {
+				return fail(fmt.Errorf("walkrel outside func"))
+			}
+			c, err := mkClause("ensures", rest, d.file, d.line)
+			if err != nil {
+				return err
+			}
+			c.Name = fmt.Sprintf("%s.walkrel%d", cur.Name, len(cur.Walkrels)+1)
+			cur.Walkrels = append(cur.Walkrels, c)
+			cur.Ensures = append(cur.Ensures, c)
+		case "walkpost":
+			if cur == nil {
+				return fail(fmt.Errorf("walkpost outside func"))
+			}
+			m := regexp.MustCompile(`^(\[[^\]]*\])?\s*(\w+)\((\w+)\s*,\s*(\w+)\)$`).FindStringSubmatch(rest)
+			if m == nil {
+				return fail(fmt.Errorf("bad walkpost (want: walkpost [tags] PRED(keyParam, entryParam))"))
+			}
+			cur.Walkpost = &WalkPost{Pred: m[2], Args: []string{m[3], m[4]}, Tags: m[1]}
 		case "callassert":
 			// callassert CALLEE [tags] expr   (inside a func block)
 			if cur == nil {
@@ -328,6 +385,49 @@ func parseContractFile(path, pkg string, cf *ContractFile) error {
 			}
 			c.Name = fmt.Sprintf("%s.callassert(%s)%d", cur.Name, fields[1], len(cur.CallAsserts[fields[1]])+1)
 			cur.CallAsserts[fields[1]] = append(cur.CallAsserts[fields[1]], c)
+		case "guarded_by":
+			// guarded_by Struct.mutexField [tags]: f1, f2, ...
+			m := regexp.MustCompile(`^(\w+)\.(\w+)\s*(\[[^\]]*\])?\s*:\s*(.*)$`).FindStringSubmatch(rest)
+			if m == nil {
+				return fail(fmt.Errorf("bad guarded_by"))
+			}
+			g := &GuardedBy{Struct: m[1], Mutex: m[2], Fields: map[string]bool{}}
+			g.Tags, _ = parseTags(m[3])
+			for _, f := range strings.Split(m[4], ",") {
+				if f = strings.TrimSpace(f); f != "" {
+					g.Fields[f] = true
+				}
+			}
+			cf.Guarded = append(cf.Guarded, g)
+			cur = nil
+		case "lockinv":
+			// lockinv Struct.mutexField [tags] VAR: EXPR
+			m := regexp.MustCompile(`^(\w+)\.(\w+)\s*(\[[^\]]*\])?\s*(\w+)\s*:\s*(.*)$`).FindStringSubmatch(rest)
+			if m == nil {
+				return fail(fmt.Errorf("bad lockinv"))
+			}
+			c, err := mkClause("lockinv", m[3]+" "+m[5], d.file, d.line)
+			if err != nil {
+				return err
+			}
+			c.Name = fmt.Sprintf("lockinv(%s.%s)", m[1], m[2])
+			cf.LockInvs = append(cf.LockInvs, &LockInv{Struct: m[1], Mutex: m[2], Var: m[4], C: c})
+			cur = nil
+		case "lockctx":
+			// lockctx [tags] EXPR : f1, f2, ...   -- every listed function gets the implicit precondition EXPR
+			k := strings.LastIndex(rest, " : ")
+			if k < 0 {
+				return fail(fmt.Errorf("bad lockctx"))
+			}
+			for _, f := range strings.Split(rest[k+3:], ",") {
+				if f = strings.TrimSpace(f); f != "" {
+					if cf.LockCtx == nil {
+						cf.LockCtx = map[string][]string{}
+					}
+					cf.LockCtx[pkg+"#"+f] = append(cf.LockCtx[pkg+"#"+f], strings.TrimSpace(rest[:k]))
+				}
+			}
+			cur = nil
 		case "cut":
 			// cut load(.FIELD) [tags] expr
 			if cur == nil {
@@ -348,16 +448,16 @@ func parseContractFile(path, pkg string, cf *ContractFile) error {
 			if cur == nil {
 				return fail(fmt.Errorf("siteassert outside func"))
 			}
-			m := regexp.MustCompile(`^mapupdate\((.*?)\)\s+(\[.*)$`).FindStringSubmatch(rest)
+			m := regexp.MustCompile(`^(mapupdate|mapdelete)\((.*?)\)\s+(\[.*)$`).FindStringSubmatch(rest)
 			if m == nil {
 				return fail(fmt.Errorf("bad siteassert"))
 			}
-			c, err := mkClause("siteassert", m[2], d.file, d.line)
+			c, err := mkClause("siteassert", m[3], d.file, d.line)
 			if err != nil {
 				return err
 			}
-			c.Name = fmt.Sprintf("%s.mapupdate(%s)%d", cur.Name, m[1], len(cur.SiteAsserts)+1)
-			cur.SiteAsserts = append(cur.SiteAsserts, &SiteAssert{MapType: m[1], C: c})
+			c.Name = fmt.Sprintf("%s.%s(%s)%d", cur.Name, m[1], m[2], len(cur.SiteAsserts)+1)
+			cur.SiteAsserts = append(cur.SiteAsserts, &SiteAssert{Kind: m[1], MapType: m[2], C: c})
 		case "sendassert":
 			// sendassert Chan(e) [tags] expr
 			m := regexp.MustCompile(`^([A-Za-z0-9_.]+)\((\w+)\)\s*(.*)$`).FindStringSubmatch(rest)
@@ -403,6 +503,11 @@ func parseContractFile(path, pkg string, cf *ContractFile) error {
 			}
 			after := strings.TrimSpace(r[rp+1:])
 			k := strings.Index(after, ":=")
+			if k < 0 && kw == "spec" && after != "" {
+				// spec fn NAME(params) T   -- no body: an uninterpreted function (pure ghost vocabulary)
+				cf.Preds[name] = &PredDecl{Name: name, Params: params, Ret: after, Body: nil, Src: "(uninterpreted)"}
+				continue
+			}
 			if k < 0 {
 				return fail(fmt.Errorf("missing := in pred"))
 			}
@@ -424,6 +529,13 @@ func parseContractFile(path, pkg string, cf *ContractFile) error {
 			cf.Funcs[pkg+"#"+name] = cur
 			cf.FuncOrder = append(cf.FuncOrder, pkg+"#"+name)
 		case "requires", "ensures":
+			if cur == nil && lastExtern != nil {
+				// continuation lines of a multi-line extern declaration
+				if err := parseExternTail(lastExtern, d.text, d.file, d.line); err != nil {
+					return fail(err)
+				}
+				continue
+			}
 			if cur == nil {
 				return fail(fmt.Errorf("%s outside func", kw))
 			}
@@ -439,6 +551,12 @@ func parseContractFile(path, pkg string, cf *ContractFile) error {
 				cur.Ensures = append(cur.Ensures, c)
 			}
 		case "modifies":
+			if cur == nil && lastExtern != nil {
+				if err := parseExternTail(lastExtern, d.text, d.file, d.line); err != nil {
+					return fail(err)
+				}
+				continue
+			}
 			if cur == nil {
 				return fail(fmt.Errorf("modifies outside func"))
 			}
@@ -551,58 +669,10 @@ func parseContractFile(path, pkg string, cf *ContractFile) error {
 			}
 			ex := &ExternDecl{Name: fields[1], Kind: fields[2]}
 			r2 := strings.TrimSpace(strings.TrimPrefix(strings.TrimSpace(strings.TrimPrefix(rest, fields[1])), fields[2]))
-			for r2 != "" {
-				var kind string
-				if strings.HasPrefix(r2, "ensures") {
-					kind = "ensures"
-				} else if strings.HasPrefix(r2, "requires") {
-					kind = "requires"
-				} else if strings.HasPrefix(r2, "modifies") {
-					kind = "modifies"
-				} else if strings.HasPrefix(r2, "pattern") {
-					// pattern `...` (rest of the directive up to the closing backquote)
-					r2 = strings.TrimSpace(r2[len("pattern"):])
-					if !strings.HasPrefix(r2, "`") || strings.Index(r2[1:], "`") < 0 {
-						return fail(fmt.Errorf("bad pattern"))
-					}
-					end := strings.Index(r2[1:], "`") + 1
-					ex.Pattern = r2[1:end]
-					r2 = strings.TrimSpace(r2[end+1:])
-					continue
-				} else {
-					return fail(fmt.Errorf("bad extern tail %q", r2))
-				}
-				r2 = strings.TrimSpace(r2[len(kind):])
-				// up to next " ensures " / " requires "
-				end := len(r2)
-				for _, k := range []string{" ensures ", " requires ", " modifies ", " pattern "} {
-					if i := strings.Index(r2, k); i >= 0 && i < end {
-						end = i
-					}
-				}
-				if kind == "modifies" {
-					for _, loc := range splitTop(r2[:end], ',') {
-						e, err := parseExpr(strings.ReplaceAll(strings.TrimSpace(loc), "[_]", "[$any]"))
-						if err != nil {
-							return fail(err)
-						}
-						ex.Modifies = append(ex.Modifies, e)
-					}
-					r2 = strings.TrimSpace(r2[end:])
-					continue
-				}
-				c, err := mkClause(kind, r2[:end], d.file, d.line)
-				if err != nil {
-					return err
-				}
-				c.Name = ex.Name + "." + kind
-				if kind == "ensures" {
-					ex.Ensures = append(ex.Ensures, c)
-				} else {
-					ex.Requires = append(ex.Requires, c)
-				}
-				r2 = strings.TrimSpace(r2[end:])
+			if err := parseExternTail(ex, r2, d.file, d.line); err != nil {
+				return fail(err)
 			}
+			lastExtern = ex
 			cf.Externs[ex.Name] = ex
 			cur = nil
 		case "axiom":
@@ -624,4 +694,66 @@ func parseContractFile(path, pkg string, cf *ContractFile) error {
 
 func newContractFile() *ContractFile {
 	return &ContractFile{Preds: map[string]*PredDecl{}, Funcs: map[string]*FuncContract{}, Externs: map[string]*ExternDecl{}, SendAsserts: map[string][]*Clause{}}
+}
+
+// parseExternTail: [pattern `re`] [requires e] [ensures e] [modifies locs] ... in any order, repeated
+func parseExternTail(ex *ExternDecl, r2, file string, line int) error {
+	fail := func(e error) error { return e }
+	d := struct {
+		file string
+		line int
+	}{file, line}
+	for r2 != "" {
+		var kind string
+		if strings.HasPrefix(r2, "ensures") {
+			kind = "ensures"
+		} else if strings.HasPrefix(r2, "requires") {
+			kind = "requires"
+		} else if strings.HasPrefix(r2, "modifies") {
+			kind = "modifies"
+		} else if strings.HasPrefix(r2, "pattern") {
+			// pattern `...` (rest of the directive up to the closing backquote)
+			r2 = strings.TrimSpace(r2[len("pattern"):])
+			if !strings.HasPrefix(r2, "`") || strings.Index(r2[1:], "`") < 0 {
+				return fail(fmt.Errorf("bad pattern"))
+			}
+			end := strings.Index(r2[1:], "`") + 1
+			ex.Pattern = r2[1:end]
+			r2 = strings.TrimSpace(r2[end+1:])
+			continue
+		} else {
+			return fail(fmt.Errorf("bad extern tail %q", r2))
+		}
+		r2 = strings.TrimSpace(r2[len(kind):])
+		// up to next " ensures " / " requires "
+		end := len(r2)
+		for _, k := range []string{" ensures ", " requires ", " modifies ", " pattern "} {
+			if i := strings.Index(r2, k); i >= 0 && i < end {
+				end = i
+			}
+		}
+		if kind == "modifies" {
+			for _, loc := range splitTop(r2[:end], ',') {
+				e, err := parseExpr(strings.ReplaceAll(strings.TrimSpace(loc), "[_]", "[$any]"))
+				if err != nil {
+					return fail(err)
+				}
+				ex.Modifies = append(ex.Modifies, e)
+			}
+			r2 = strings.TrimSpace(r2[end:])
+			continue
+		}
+		c, err := mkClause(kind, r2[:end], d.file, d.line)
+		if err != nil {
+			return err
+		}
+		c.Name = ex.Name + "." + kind
+		if kind == "ensures" {
+			ex.Ensures = append(ex.Ensures, c)
+		} else {
+			ex.Requires = append(ex.Requires, c)
+		}
+		r2 = strings.TrimSpace(r2[end:])
+	}
+	return nil
 }
